@@ -18,12 +18,25 @@
       slots and may only replace a generation in the control word by a handover address);
     - ownership transitions and the tables of control words / handover spaces are preserved
       ([C13_inuse_transitions], [C13_tables]).
-    NOT yet assembled (statement kept visible): the global theorem
-      [forall sched, WF (init_state ..) -> no EvPanic in snd (run cf s sched)]
-    i.e. the induction over schedules that puts these obligations together ([Inv.WF]); until
-    then the partial theorems are the obligations of that induction, each proved, and the
-    concrete wrap-around run below is checked by computation and on the real crate. *)
-From ASModel Require Import Base State Orderings_gen Step Run Progress Hist Inv InvTl InvProto.
+    - the global theorem [C13_total]: these obligations are assembled by induction over
+      schedules ([InvStep.WF2] holds in every reachable state): NO step of ANY run from ANY
+      initial configuration (any containers, any number of threads, any programs, any schedule,
+      both strategies, debug assertions on or off) emits a panic; and every reachable state
+      satisfies [WF2], so all other theorems proved from [WF2] continue to hold after a wrap
+      ([C13_after_wrap]).
+    Out of scope: overflow of the pointee's own reference counter, allocation failure, and the
+    [unwind] of user panics (C18).  "Does not hang" is C08/C09. *)
+From ASModel Require Import Base State Orderings_gen Step Run Progress Hist Inv InvTl InvProto InvStep.
+
+Theorem C13_total :
+  forall cf inits progs sched te e,
+    In te (snd (run cf (init_state inits progs) sched)) -> In e (snd te) ->
+    match e with EvPanic _ => False | _ => True end.
+Proof. exact no_panic_in_any_run. Qed.
+
+Theorem C13_after_wrap :
+  forall cf inits progs sched, WF2 (fst (run cf (init_state inits progs) sched)).
+Proof. intros. apply (run_WF2 cf sched _ (WF2_init inits progs)). Qed.
 
 Theorem C13_own_step :
   forall cf s l p x s' l' evs nx n,
@@ -101,6 +114,8 @@ Example C13_wrap_example :
   /\ tl_gen (t_loc (thr (fst (run ex_cf ex_s0 ex_sched)) 0)) = 4.
 Proof. vm_compute. repeat split; reflexivity. Qed.
 
+Print Assumptions C13_total.
+Print Assumptions C13_after_wrap.
 Print Assumptions C13_own_step.
 Print Assumptions C13_no_node_step.
 Print Assumptions C13_resume.
